@@ -197,6 +197,8 @@ type c10Form struct {
 	Dialed string     // what reaches the transport (differs for DNS names resolved by the swarm)
 	IP     netip.Addr // the IP of Dialed, by construction (invalid: none)
 	Demand bool
+	// Unresolved: the swarm cannot turn Addr into something dialable (its resolver fails); no baseline dial is expected
+	Unresolved bool
 }
 
 func c10RelayID() peer.ID { return fxID("relay").ID }
@@ -232,6 +234,12 @@ func c10Forms() []c10Form {
 	add("dns4->blocked-ip4/tcp", "/dns4/blocked.example/tcp/4001", "/ip4/1.2.3.4/tcp/4001", "1.2.3.4", true)
 	add("dns6->blocked-ip6/quic", "/dns6/blocked6.example/udp/4001/quic-v1", "/ip6/2001:db8::1/udp/4001/quic-v1", "2001:db8::1", true)
 	add("dns4->other/tcp", "/dns4/other.example/tcp/4001", "/ip4/7.7.7.7/tcp/4001", "7.7.7.7", true)
+	// a name the swarm's resolver cannot resolve (NXDOMAIN / resolver fault) but that a transport which resolves names
+	// itself (websocket does) would find on the blocked IP: if the swarm hands the unresolved name to a transport, that
+	// is a transport dial to a blocked address which no gater hook could have matched
+	add("dns4-unresolved-by-swarm->blocked-ip4/tcp", "/dns4/late.example/tcp/4001", "", "1.2.3.4", true)
+	add("dns6-unresolved-by-swarm->blocked-ip6/quic", "/dns6/late6.example/udp/4001/quic-v1", "", "2001:db8::1", true)
+	out[len(out)-1].Unresolved, out[len(out)-2].Unresolved = true, true
 	// no IP component at all
 	add("no-ip/circuit", "/p2p/"+c10RelayID().String()+"/p2p-circuit", "", "", true)
 	// relayed address whose relay hop sits on the blocked IP (the relay itself is gated when it is dialled): outcome only
@@ -484,7 +492,7 @@ loop:
 							r.Outcome(uh)
 						}
 						distinct[cl+"|"+f.Class+"|"+entry] = struct{}{}
-						if len(st.Rules) == 0 && len(comp.Addrs) == 0 && outcome == fxOK {
+						if len(st.Rules) == 0 && len(comp.Addrs) == 0 && outcome == fxOK && !f.Unresolved {
 							// non-vacuity baseline: without rules the address under test is dialled and the connection admitted
 							if o.Err != "" || len(o.Dials) == 0 || len(o.Conns) == 0 {
 								r.Cap("baseline broken (no verdict): without rules %s to %s gave err=%q dials=%v conns=%v", entry, f.Addr, o.Err, o.Dials, o.Conns)
